@@ -63,7 +63,13 @@ def generate(tier, rng):
         na = rng.sample(pool, rng.randint(1, 4))
         nb = rng.sample(pool, rng.randint(1, 4))
         if rng.random() < 0.5:
-            cases.append({"op": "tgappend", "A": mk_tg(na), "B": mk_tg(nb), "args": {"only": rng.random() < 0.5},
+            A = mk_tg(na)
+            if rng.random() < 0.35:
+                # a tier may end before its textgrid does (the textgrid's span is given explicitly)
+                for t in A:
+                    if rng.random() < 0.6:
+                        t["max"] = max([rng.randint(20, 29)] + [e[-2] for e in t["entries"]])
+            cases.append({"op": "tgappend", "A": A, "B": mk_tg(nb), "args": {"only": rng.random() < 0.5},
                           "scale": gen.pick_scale(rng)})
         else:
             cases.append({"op": "tgedit", "A": mk_tg(na), "args": {"o": rng.randint(-35, 20), "mode": rng.choice(MODES)},
@@ -73,7 +79,7 @@ def generate(tier, rng):
 
 def _mk_tg(tiers, sc):
     from praatio.data_classes.textgrid import Textgrid
-    tg = Textgrid()
+    tg = Textgrid(sc.f(0), sc.f(30))
     for t in tiers:
         tg.addTier(core.mk_tier(t, sc), reportingMode="silence")
     return tg
